@@ -28,6 +28,8 @@ type Case struct {
 	// (observing filters, requests served before, changes of the table after registration); Cfg is
 	// always the table in force when the request was dispatched
 	Note string
+	// BO: how the table was put on the container (observing filters, dynamic routes, reused RouteBuilders)
+	BO BuildOpts
 }
 
 // SkippedBuild counts generated tables that Container.Add refused (F11).
@@ -97,11 +99,8 @@ func Change(r *rng.R, o Opts, b *Built, cur, gen Config) (Config, Config, string
 		rd.Method = r.Pick(Methods[:5])
 	}
 	rd.Consumes, rd.Produces, rd.Conds, rd.Noct = pickMedia(r, o), pickMedia(r, o), nil, nil
-	rb := RouteBuilder(ws, svc, rd)
-	if b.BO.Observe >= 3 {
-		rb.Filter(observer("route-filter"))
-	}
-	ws.Route(rb)
+	// (declared with the RouteBuilder that built this WebService's last route when builders are reused)
+	ws.Route(b.SB[si].next(ws, svc, rd, b.BO))
 	next.Services[si].Routes = append(next.Services[si].Routes, rd)
 	g2 := cloneCfg(gen)
 	g2.Services[si].Routes = append(g2.Services[si].Routes, rd)
@@ -133,6 +132,11 @@ func Run(seed uint64, nCfg, perCfg int, o Opts) ([]*Case, error) {
 			bo.Dynamic = r.Chance(2, 3)
 			changeAt = perCfg/4 + r.Intn(perCfg/2)
 		}
+		if br := r.Fork(0xb111de5); o.Builders && br.Chance(1, 2) {
+			// how the routes are declared: RouteBuilder values used for several routes (an own stream of
+			// the PRNG: the tables and requests drawn are the same with and without this dimension)
+			bo.Reuse = br.U64() | 1
+		}
 		built, err := BuildWith(cfg, bo)
 		var cont *restful.Container
 		if built != nil {
@@ -154,6 +158,9 @@ func Run(seed uint64, nCfg, perCfg int, o Opts) ([]*Case, error) {
 		if bo.Observe > 0 {
 			note = fmt.Sprintf("container built with observing pass-through filters (level %d: container%s%s); ", bo.Observe,
 				map[bool]string{true: ", every WebService"}[bo.Observe >= 2], map[bool]string{true: ", every route"}[bo.Observe >= 3])
+		}
+		if bo.Reuse != 0 {
+			note += "routes declared with RouteBuilder values that are used again for the next route of their WebService (Method, Path, Operation, Consumes, Produces, To set anew) three times out of four; "
 		}
 		for qi := 0; qi < perCfg && !hung; qi++ {
 			if qi == changeAt {
@@ -185,7 +192,7 @@ func Run(seed uint64, nCfg, perCfg int, o Opts) ([]*Case, error) {
 				}
 			}
 			real := Dispatch(cont, req)
-			c := &Case{Cfg: cur, CfgLine: cfgLine, Req: req, Real: real, RealS: real.Sx().String()}
+			c := &Case{Cfg: cur, CfgLine: cfgLine, Req: req, Real: real, RealS: real.Sx().String(), BO: bo}
 			if note != "" {
 				c.Note = note + fmt.Sprintf("this is request %d on this container", qi+1)
 			}
